@@ -609,11 +609,12 @@ def grammar(case):
                 exp = ev(t, leaf)
                 si = ev(t, SI_LEAF)
                 d = dims(t)
-                dimf = 1.0
-                for bi, di in zip(base, d):
-                    dimf *= bi ** float(di)
-                if not (LO < dimf < HI):
+                # product of base units^dims through logarithms: the sequential product can pass through the subnormal
+                # range (e.g. s^-23 = 1.5e-322 under the default units) and lose digits although the result is in range
+                lg = math.fsum(float(di) * math.log(bi) for bi, di in zip(base, d))
+                if not (math.log(LO) < lg < math.log(HI)):
                     raise OutOfRange()
+                dimf = math.exp(lg)
             except (OutOfRange, OverflowError):
                 chk.note('skipped-out-of-float-range')
                 continue
